@@ -418,36 +418,53 @@ def termUnref (st : St) : Out St :=
   (`destroyT`, which returns the windows it freed, in the order they were freed) and releases their belongings
   afterwards (`releaseWin`). -/
 
+/-- One turn of the children loop of `tickit_window_destroy`
+    (`for(child = first_child; child; child = next) { next = child->next; … }`). -/
+def destroyStep (cfg : Cfg) (unrefChild : Tree → Id → Out (Tree × List Id)) (acc : Tree × List Id) (c : Id) :
+    Out (Tree × List Id) := do
+  let _ ← ofRes (WinTree.get acc.1 c)                      -- next = child->next
+  if cfg.destroyClosesChildren then
+    let t ← closeT cfg acc.1 c
+    let r ← unrefChild t c
+    pure (r.1, acc.2 ++ r.2)
+  else
+    let r ← unrefChild acc.1 c
+    match r.1.wins[c]? with
+    | none => .ub .mem s!"unknown window {c}"
+    | some cw =>
+      if cw.freed then .ub .mem s!"tickit_window_destroy: child->parent = NULL written into freed child {c}"
+      else pure (WinTree.set r.1 c { cw with parent := none }, acc.2 ++ r.2)
+
+/-- The end of `tickit_window_destroy` for the root: after the repair the requests still queued are freed; the
+    drag context goes with the struct. -/
+def rootCleanup (cfg : Cfg) (t : Tree) : Tree :=
+  clearDrag (if cfg.closePurges then setChanges t [] else t)
+
+/-- `if(win->parent) _purge_hierarchy_changes(win);` -/
+def purgeIfLinked (cfg : Cfg) (t : Tree) (win : Id) (w : Win) : Out Tree :=
+  if w.parent.isSome then purge cfg t win else pure t
+
+/-- `if(!win->is_closed) tickit_window_close(win);` -/
+def closeIfOpen (cfg : Cfg) (t : Tree) (win : Id) (w : Win) : Out Tree :=
+  if !w.isClosed then closeT cfg t win else pure t
+
+/-- `if(win->is_root) { … }` -/
+def rootCleanupIf (cfg : Cfg) (t : Tree) (w : Win) : Tree :=
+  if w.isRoot then rootCleanup cfg t else t
+
 /-- `tickit_window_destroy` on the tree, given the function that drops one reference of a child.
     Returns the tree and the windows freed (in order). -/
 def destroyTWith (cfg : Cfg) (unrefChild : Tree → Id → Out (Tree × List Id)) (t : Tree) (win : Id) :
     Out (Tree × List Id) := do
   let w ← ofRes (WinTree.get t win)
-  -- for(child = first_child; child; child = next) { next = child->next; … }
-  let (t, dead) ← w.children.foldlM (fun (acc : Tree × List Id) (c : Id) => do
-      let (t, dead) := acc
-      let _ ← ofRes (WinTree.get t c)                      -- next = child->next
-      if cfg.destroyClosesChildren then
-        let t ← closeT cfg t c
-        let (t, d) ← unrefChild t c
-        pure (t, dead ++ d)
-      else
-        let (t, d) ← unrefChild t c
-        match t.wins[c]? with
-        | none => .ub .mem s!"unknown window {c}"
-        | some cw =>
-          if cw.freed then .ub .mem s!"tickit_window_destroy: child->parent = NULL written into freed child {c}"
-          else pure (WinTree.set t c { cw with parent := none }, dead ++ d)) (t, [])
+  let r ← w.children.foldlM (destroyStep cfg unrefChild) (t, [])
+  let t := r.1
   let w ← ofRes (WinTree.get t win)
-  let t ← if w.parent.isSome then purge cfg t win else pure t
+  let t ← purgeIfLinked cfg t win w
   let w ← ofRes (WinTree.get t win)
-  let t ← if !w.isClosed then closeT cfg t win else pure t
+  let t ← closeIfOpen cfg t win w
   let w ← ofRes (WinTree.get t win)
-  -- root cleanup: after the repair the requests still queued are freed; the drag context goes with the struct
-  let t := if w.isRoot then
-      { t with root := { t.root with changes := if cfg.closePurges then [] else t.root.changes, dragSource := none } }
-    else t
-  pure (WinTree.set t win { w with freed := true }, dead ++ [win])
+  pure (WinTree.set (rootCleanupIf cfg t w) win { w with freed := true }, r.2 ++ [win])
 
 /-- `tickit_window_unref` on the tree, given `tickit_window_destroy`. -/
 def unrefTWith (destroy : Tree → Id → Out (Tree × List Id)) (t : Tree) (win : Id) : Out (Tree × List Id) := do
